@@ -504,6 +504,8 @@ func connLayerFacts(f *hc.Facts) {
 						}
 					case *ast.CallExpr:
 						switch src(v) {
+						case "c.setup(ctx, c)":
+							*out = append(*out, "setup")
 						case "c.gotConfig.Signal()":
 							*out = append(*out, "ready")
 						case "c.flushPendingSession()":
@@ -1232,11 +1234,12 @@ func runConns(c *hc.Ctx) error {
 		st := &faultyStorage{}
 		v := telegram.VerifC30NewClient(primary, false, st)
 		type mc struct {
-			cdn      bool
-			dc, cfg  int
-			hasCfg   bool
-			conn     *telegram.VerifC30ManagedConn
-			serverDC int
+			cdn         bool
+			dc, cfg     int
+			hasCfg      bool
+			conn        *telegram.VerifC30ManagedConn
+			serverDC    int
+			duringSetup int // number of sessions confirmed while Setup runs
 		}
 		var conns []*mc
 		// per connection: a script of events and one init, then interleave the scripts
@@ -1275,16 +1278,17 @@ func runConns(c *hc.Ctx) error {
 				}
 			}
 			scripts = append(scripts, sc)
+			if !m.cdn && r.Chance(40) { // sessions confirmed while the Setup callback (auth transfer) runs
+				m.duringSetup = 1 + r.Intn(2)
+			}
 		}
 		var acts []string
-		for id, m := range conns {
+		for _, m := range conns {
 			k := "r"
 			if m.cdn {
 				k = "c"
 			}
-			acts = append(acts, fmt.Sprintf("N:%s:%d", k, m.dc))
-			m.conn = v.VerifC30NewConn(m.dc, m.cdn, m.serverDC)
-			_ = id
+			acts = append(acts, fmt.Sprintf("N:%s:%d:%d", k, m.dc, m.serverDC))
 		}
 		type cand struct {
 			dc   int
@@ -1293,7 +1297,43 @@ func runConns(c *hc.Ctx) error {
 		}
 		var pendingC [][]cand = make([][]cand, nc)
 		var cands []cand
-		buffered := false
+		buffered, inSetup := false, false
+		// confirm: the server confirms a fresh session on connection id (mtproto -> Conn.OnSession)
+		confirm := func(id int) error {
+			m := conns[id]
+			x := notif{key: genKey(r), salt: int64(r.U64())}
+			if r.Chance(30) {
+				x.perm = genKey(r)
+			}
+			acts = append(acts, fmt.Sprintf("E:%d:%s,%s,%s,%s,%d", id, hc.Hex(x.key.Value[:]), hc.Hex(x.key.ID[:]),
+				hc.Hex(x.perm.Value[:]), hc.Hex(x.perm.ID[:]), x.salt))
+			cd := cand{key: x.eff(), salt: x.salt}
+			if m.hasCfg {
+				cd.dc = m.cfg
+				if !m.cdn {
+					cands = append(cands, cd)
+				}
+			} else {
+				buffered = true
+				pendingC[id] = append(pendingC[id], cd)
+			}
+			return m.conn.VerifC30OnSession(mtproto.Session{Key: x.key, PermKey: x.perm, Salt: x.salt})
+		}
+		for id, m := range conns {
+			id, m := id, m
+			var during func()
+			if m.duringSetup > 0 {
+				during = func() {
+					inSetup = true
+					for k := 0; k < m.duringSetup; k++ {
+						if err := confirm(id); err != nil {
+							c.Fail("conn-layer-error", fmt.Sprintf("conns: session during setup on connection %d", id), err.Error())
+						}
+					}
+				}
+			}
+			m.conn = v.VerifC30NewConn(m.dc, m.cdn, m.serverDC, during)
+		}
 		for {
 			var live []int
 			for id, sc := range scripts {
@@ -1317,25 +1357,12 @@ func runConns(c *hc.Ctx) error {
 				}()
 				switch stp.act {
 				case "E":
-					x := notif{key: genKey(r), salt: int64(r.U64())}
-					if r.Chance(30) {
-						x.perm = genKey(r)
-					}
-					acts = append(acts, fmt.Sprintf("E:%d:%s,%s,%s,%s,%d", id, hc.Hex(x.key.Value[:]), hc.Hex(x.key.ID[:]),
-						hc.Hex(x.perm.Value[:]), hc.Hex(x.perm.ID[:]), x.salt))
-					cd := cand{key: x.eff(), salt: x.salt}
-					if m.hasCfg {
-						cd.dc = m.cfg
-						if !m.cdn {
-							cands = append(cands, cd)
-						}
-					} else {
-						buffered = true
-						pendingC[id] = append(pendingC[id], cd)
-					}
-					err = m.conn.VerifC30OnSession(mtproto.Session{Key: x.key, PermKey: x.perm, Salt: x.salt})
+					err = confirm(id)
 				case "I":
-					acts = append(acts, fmt.Sprintf("I:%d:%d", id, m.serverDC))
+					acts = append(acts, fmt.Sprintf("IB:%d", id))
+					err = m.conn.VerifC30Init(context.Background())
+					// the config is known to the handler only from the point the real code flushes; for the
+					// monitor's candidates everything this connection delivers must carry its own config
 					m.hasCfg, m.cfg = true, m.serverDC
 					if m.cdn {
 						m.cfg = m.dc
@@ -1347,7 +1374,7 @@ func runConns(c *hc.Ctx) error {
 						}
 					}
 					pendingC[id] = nil
-					err = m.conn.VerifC30Init(context.Background())
+					acts = append(acts, fmt.Sprintf("IE:%d", id))
 				}
 			}()
 			if err != nil {
@@ -1362,6 +1389,9 @@ func runConns(c *hc.Ctx) error {
 		c.Count(fmt.Sprintf("conns.n=%d", nc))
 		if buffered {
 			c.Count("conns.session-before-config")
+		}
+		if inSetup {
+			c.Count("conns.session-during-setup")
 		}
 		// monitor: the stored session pairs a key with the config DC of the connection that produced it
 		if now != nil {
